@@ -289,8 +289,8 @@ PROPS["C10"] = {
     "module": "MsiProofs.Props.C10",
     "gen": ["summary", "codepage", "limits"],
     "profiles": ["dev"],
-    "theorems": ["MsiProofs.C10.value_size_exact", "MsiProofs.C10.value_tag", "MsiProofs.C10.insertSorted_get", "MsiProofs.C10.set_get", "MsiProofs.C10.remove_get", "MsiProofs.C10.codepage_follows_set"],
-    "level_text": 'Lean theorems: every property value is written in exactly the number of bytes the offset table assumes (the encoded length for strings), a multiple of four, with the type tag the reader dispatches on — so offsets are exact and aligned and the section size is exact, for every property set and codec; setters are last-write-wins, clearing makes a property absent, others untouched; the cached code page follows property 1 for every ordered pair of the 26 pages incl. back to UTF-8. Tie: getters before/after reopen vs an independent expectation, raw summary bytes model vs real.',
+    "theorems": ["MsiProofs.C10.value_size_exact", "MsiProofs.C10.value_tag", "MsiProofs.C10.insertSorted_get", "MsiProofs.C10.set_get", "MsiProofs.C10.remove_get", "MsiProofs.C10.codepage_follows_set", "MsiProofs.C10.val_roundtrip", "MsiProofs.C10.propset_roundtrip", "MsiProofs.C10.demo_wf"],
+    "level_text": 'Lean theorems: READER ROUND TRIP — PropSet.read (PropSet.write p) = p for every well-formed property set (header fields, code page entry consistent with the page in use, ascending ids, values in range, total size < 2^32), in every code page whose codec round-trips the strings (codec = parameter, the contract C14 decides); every property value is written in exactly the number of bytes the offset table assumes (the encoded length for strings), a multiple of four, with the type tag the reader dispatches on — so offsets are exact and aligned and the section size is exact, for every property set and codec; setters are last-write-wins, clearing makes a property absent, others untouched; the cached code page follows property 1 for every ordered pair of the 26 pages incl. back to UTF-8. Tie: getters before/after reopen vs an independent expectation, raw summary bytes model vs real.',
     "level_note": "Trusted: Lean kernel; the hand-written package model (MsiModel/Pkg.lean, PkgApi.lean, Pool, Table, PropSet, Summary), tied to the code by byte-exact correspondence: the same request histories run on the real crate and on the model's definitions, compared on every reply including full snapshots and the raw bytes of every saved stream; cfb is modelled as a finite map from names (compared by UTF-16 length and upper-cased text) to byte strings; the 24 table-backed code pages are modelled on ASCII text only (non-ASCII text is exercised under UTF-8; all pages are exercised by the oracle on the real code).",
     "technique": 'Lean 4 proof (size = written length; setter algebra; decide on regenerated ids) + correspondence of summary bytes and getters',
     "rule": 'seeded random sessions: package type, database code page, 1-3 tables with random schemas (types, widths, flags, ranges, categories, enumerations, composite/nullable keys), inserts (valid with controlled invalid mutations), updates (incl. key columns), deletes, selects, stream writes/removes (0..9000 bytes), summary setters/clearers, create/drop table, rejected calls, close/reopen in all three modes at random positions, snapshot after every step, raw bytes after flush. non-trivial = distinct successful mutating requests + decoded files',
